@@ -171,6 +171,185 @@ def dict_unit(res):
     return res
 
 
+class _Cell(OpaqueStr):
+    """Result of an abstracted cell-formatting helper: opaque text that remembers which helper produced it from which arguments."""
+    def __init__(self, name, a, kw):
+        OpaqueStr.__init__(self, "cell:" + name)
+        self.name, self.a, self.kw = name, list(a), dict(kw)
+
+
+def combined_view_unit(res):
+    """Pb: Frontend.combined_view (real code), 2-line kernels on a 2-port model, all numbers symbolic; the cell-formatting helpers
+    (_get_port_pressure, _get_lcd_cp_ports, _get_flag_symbols, header helpers) are abstract and remember their arguments (their
+    text is the bounded unit's business).  Obligations: exactly one table row per kernel line (comment lines dropped iff show_cmnts
+    is False), carrying the line's number, the pressure cell of THAT line's port_pressure, the CP/LCD cell of that line (critical-path
+    list handed over iff the line is on the critical path; LCD latency = the line's latency within one loop-carried dependency of
+    maximal latency, None for other lines) and the line's text; totals row iff (ignore_unknown or no line lacks data): pressure cell of
+    get_throughput_sum (zeros if empty), sum of the CP contributions, maximal LCD latency; otherwise the missing-data warning with the
+    number of lines lacking data and no totals."""
+    FE_FILES = ["osaca/parser/instruction_form.py", "osaca/semantics/isa_semantics.py", "osaca/semantics/arch_semantics.py", FE]
+    ex = Engine([REPO + "/" + f for f in FE_FILES])
+    ex.no_init |= {"Frontend"}
+    n = 2
+    PP = [[z3.Real(f"pp{i}_{j}") for j in range(2)] for i in range(n)]
+    CP = [z3.Real(f"cp{i}") for i in range(n)]
+    TS = [z3.Real(f"total_{j}") for j in range(2)]
+    A1, A2, B1 = z3.Reals("lcdA_1 lcdA_2 lcdB_1")
+    LCDS = {"none": [], "one": [("3", [(0, A1)])], "two-overlapping": [("3-4", [(0, A1), (1, A2)]), ("4", [(1, B1)])]}
+    for lcd_name, cycles in LCDS.items():
+        for unknown in ((), (1,), (0, 1)):
+            for cpset in ((), (1,), (0, 1)):
+                for ignore_unknown, show_cmnts, comment, totals_empty in ((False, True, False, False), (True, True, False, False), (False, False, True, False),
+                                                                          (True, True, True, True), (False, True, True, False)):
+                    if comment and (unknown == (0, 1) or lcd_name == "two-overlapping"):
+                        continue
+
+                    def run():
+                        kernel = []
+                        for i in range(n):
+                            cm = comment and i == 0
+                            f = ex.instantiate("InstructionForm", kw=dict(mnemonic=None if cm else "op", line_number=i + 3, line=f"  # c{i} " if cm else f"  op{i}\tx ",
+                                                                          latency=1, throughput=1, port_pressure=[SNum(x, False) for x in PP[i]]))
+                            f.fields.update(_flags=["tp_unknown"] if i in unknown else [], latency_cp=SNum(CP[i], False), _port_uops=[[1, "01"]])
+                            if cm:
+                                f.fields.update(comment=f"c{i}")
+                            kernel.append(f)
+                        dep = {}
+                        for key, mem in cycles:
+                            lat = mem[0][1]
+                            for _, l_ in mem[1:]:
+                                lat = lat + l_
+                            dep[key] = {"root": kernel[mem[0][0]], "dependencies": [(kernel[i], SNum(l_, False)) for i, l_ in mem], "latency": SNum(lat, False)}
+                        cp_kernel = [kernel[i] for i in cpset]
+                        for nm in ("_get_port_pressure", "_get_lcd_cp_ports", "_get_flag_symbols", "_missing_instruction_error"):
+                            ex.abstract[nm] = (lambda nm: lambda ex_, so, a, kw: _Cell(nm, a, kw))(nm)
+                        ex.abstract["_get_max_port_len"] = lambda ex_, so, a, kw: [4, 4]
+                        ex.abstract["_get_separator_list"] = lambda ex_, so, a, kw: ["|", "|"]
+                        ex.abstract["_get_port_number_line"] = lambda ex_, so, a, kw: "  0  |  1  "
+                        ex.abstract["get_throughput_sum"] = lambda ex_, so, a, kw: [] if totals_empty else [SNum(x, False) for x in TS]
+                        fe = SObj("Frontend", _machine_model=SObj("MachineModel"), _arch="zen2")
+                        ex.extra["kernel"], ex.extra["cp_kernel"] = kernel, cp_kernel
+                        return ex.call_method("Frontend", "combined_view", fe, [kernel, cp_kernel, dep], kw=dict(ignore_unknown=ignore_unknown, show_cmnts=show_cmnts))
+
+                    paths = ex.explore(run, [x >= 0 for x in (A1, A2, B1)])
+
+                    def post(v, p, cycles=cycles, unknown=unknown, cpset=cpset, ignore_unknown=ignore_unknown, show_cmnts=show_cmnts, comment=comment, totals_empty=totals_empty):
+                        if not (isinstance(v, OpaqueStr) and hasattr(v, "parts")):
+                            return False
+                        k, cpk = p.extra["kernel"], p.extra["cp_kernel"]
+                        parts = v.parts
+                        cells_of = lambda x, nm: [c for c in getattr(x, "args", []) if isinstance(c, _Cell) and c.name == nm]
+                        # a table row = a formatted piece showing a CP/LCD cell; the layout (template text, widths) is not constrained
+                        rows = [x for x in parts if cells_of(x, "_get_lcd_cp_ports")]
+                        if not any(hasattr(x, "args") or isinstance(x, _Cell) for x in parts):
+                            raise Unsupported("report is not assembled from formatted pieces: contract not applicable")
+                        shown = [i for i in range(n) if not (comment and i == 0 and not show_cmnts)]
+                        if len(rows) != len(shown) or any(not isinstance(r.args[0], int) for r in rows) or sorted(r.args[0] for r in rows) != [i + 3 for i in shown]:
+                            return False
+                        sums = []
+                        for key, mem in cycles:
+                            t = mem[0][1]
+                            for _, l_ in mem[1:]:
+                                t = t + l_
+                            sums.append(t)
+                        mx = z3.RealVal(0)
+                        if sums:
+                            mx = sums[0]
+                            for t in sums[1:]:
+                                mx = z3.If(t > mx, t, mx)
+                        g, lcd_cells = [], {}
+                        for r in rows:
+                            i = r.args[0] - 3
+                            pcs, lcs, fls = (cells_of(r, nm) for nm in ("_get_port_pressure", "_get_lcd_cp_ports", "_get_flag_symbols"))
+                            lc = lcs[0]
+                            ok = (len(pcs) == 1 and pcs[0].a[0] is k[i].fields["_port_pressure"]
+                                  and len(lcs) == 1 and lc.a[0] == i + 3
+                                  and ((lc.a[1] is cpk) if i in cpset else (lc.a[1] is None))
+                                  and (not fls if (comment and i == 0) else (len(fls) == 1 and fls[0].a[0] is k[i].fields["_flags"]))
+                                  and (f"# c{i}" if (comment and i == 0) else f"op{i} x") in r.args)
+                            g.append(z3.BoolVal(bool(ok)))
+                            lcd_cells[i] = lc.a[2] if ok else None
+                        if cycles:
+                            alts = []
+                            for (key, mem), t in zip(cycles, sums):
+                                col = dict(mem)
+                                c = [t == mx]
+                                for i in shown:
+                                    if i in col:
+                                        c.append(real_term(lcd_cells[i]) == col[i] if lcd_cells[i] is not None else z3.BoolVal(False))
+                                    else:
+                                        c.append(z3.BoolVal(lcd_cells[i] is None))
+                                alts.append(z3.And(c))
+                            g.append(z3.Or(alts))
+                        else:
+                            g.append(z3.BoolVal(all(lcd_cells[i] is None for i in shown)))
+                        # the totals = a formatted piece outside the table rows (header pieces are concrete text)
+                        tot = [x for x in parts if hasattr(x, "args") and x not in rows and not isinstance(x, _Cell)]
+                        warn = [x for x in parts if isinstance(x, _Cell) and x.name == "_missing_instruction_error"]
+                        if unknown and not ignore_unknown:
+                            g.append(z3.BoolVal(not tot and len(warn) == 1 and warn[0].a[0] == len(unknown)))
+                        else:
+                            if warn or len(tot) != 1:
+                                return False
+                            if len(tot[0].args) != 2:
+                                return False
+                            g += [real_term(tot[0].args[0]) == sum([CP[i] for i in cpset], z3.RealVal(0)), real_term(tot[0].args[1]) == mx]
+                            tcells = [x for x in parts if isinstance(x, _Cell) and x.name == "_get_port_pressure"]
+                            if len(tcells) != 1 or not isinstance(tcells[0].a[0], list) or len(tcells[0].a[0]) != 2:
+                                return False
+                            cell = tcells[0]
+                            want = [z3.RealVal(0)] * 2 if totals_empty else TS
+                            g += [real_term(cell.a[0][j]) == want[j] for j in range(2)]
+                        return z3.And(g)
+
+                    res.add_paths(paths, post, kind=f"lcd={lcd_name}/unknown={len(unknown)}/cp={len(cpset)}/ign={int(ignore_unknown)}/cmnts={int(show_cmnts)}/comment={int(comment)}", label="Pb")
+    return res
+
+
+def lcd_list_unit(res):
+    """Pb: Frontend.loopcarried_dependencies (the LCD list of the text report) for 0-3 loop-carried dependencies with symbolic
+    latencies: exactly one row per dependency (in any order), each showing the first member's line number, the
+    dependency's latency and the line numbers of ALL members in order (the format template itself is opaque,
+    its arguments are not)."""
+    ex = Engine([REPO + "/" + f for f in ("osaca/parser/instruction_form.py", FE)])
+    lat = [z3.Real(f"lcd_latency{i}") for i in range(3)]
+    shapes = [[], [("2-4", [2, 4])], [("2-4", [2, 4]), ("10-12-13", [10, 12, 13])], [("3", [3]), ("2-4", [2, 4]), ("10-12", [10, 12])]]
+    for deps in shapes:
+        def run(deps=deps):
+            nodes = {}
+            mk = lambda n: nodes.setdefault(n, ex.instantiate("InstructionForm", kw=dict(mnemonic="op", line_number=n, line=f"  op{n}  ")))
+            dd = {}
+            for i, (key, members) in enumerate(deps):
+                dd[key] = {"root": mk(members[0]), "dependencies": [(mk(m), 1) for m in members], "latency": SNum(lat[i], False)}
+            return ex.call_method("Frontend", "loopcarried_dependencies", SObj("Frontend"), [dd])
+
+        paths = ex.explore(run, [])
+
+        def post(v, p, deps=deps):
+            rows = [x for x in getattr(v, "parts", []) if isinstance(x, OpaqueStr) and hasattr(x, "args")] if isinstance(v, OpaqueStr) else []
+            if not deps:
+                return isinstance(v, str) or not rows
+            if isinstance(v, OpaqueStr) and not rows:
+                raise Unsupported("report is not assembled from formatted pieces: contract not applicable")
+            # every dependency is shown by exactly one row (the statement fixes neither order nor layout): the rows' member
+            # lists are a permutation of the dependencies' member lists, each row carries its own dependency's latency
+            lists = [[x for x in r.args if isinstance(x, list)] for r in rows]
+            if len(rows) != len(deps) or any(len(l_) != 1 for l_ in lists):
+                return False
+            shown = [l_[0] for l_ in lists]
+            if sorted(map(tuple, shown)) != sorted(tuple(m) for _, m in deps):
+                return False
+            g = []
+            for i, (key, members) in enumerate(deps):
+                a = rows[shown.index(members)].args
+                nums = [x for x in a if is_num(x) and not isinstance(x, (bool, int))]
+                g.append(z3.Or([real_term(x) == lat[i] for x in nums]) if nums else z3.BoolVal(False))
+            return z3.And(g)
+
+        res.add_paths(paths, post, kind=f"{len(deps)}-dependencies", label="Pb")
+    return res
+
+
 def _inspect_unit():
     from .c11 import inspect_selection_unit
     return inspect_selection_unit
@@ -182,6 +361,8 @@ def units(tier):
                                                                         (FE, "Frontend._get_flag_symbols")], decisive=False),
         Unit("C13/frontend/_get_lcd_cp_ports", cells_unit, "P", [(FE, "Frontend._get_lcd_cp_ports"), (FE, "Frontend._get_node_by_lineno")], decisive=False),
         Unit("C13/full_analysis_dict(fields = line attributes, summary = totals)", dict_unit, "Pb", [(FE, "Frontend.full_analysis_dict"), (FE, "Frontend._selected_port_uops")], decisive=False),
+        Unit("C13/combined_view(rows, totals, missing-data branch; cell helpers abstract)", combined_view_unit, "Pb", [(FE, "Frontend.combined_view"), (FE, "Frontend._is_comment")], decisive=False),
+        Unit("C13/loopcarried_dependencies(LCD list rows)", lcd_list_unit, "Pb", [(FE, "Frontend.loopcarried_dependencies")], decisive=False),
         Unit("C13/inspect/warning-flags-and-report-wiring", _inspect_unit(), "P", [(OS, "inspect")], decisive=False),
         bounded_unit("C13/report-vs-dict", "c13_report", [(FE, "Frontend.combined_view"), (FE, "Frontend.full_analysis_dict"), (FE, "Frontend.loopcarried_dependencies"),
                      (FE, "Frontend._get_port_pressure"), (FE, "Frontend._get_lcd_cp_ports"), (OS, "inspect")], extra_args=["C13"], timeout=(7000 if tier == "thorough" else 2400), decisive=True),
